@@ -151,9 +151,20 @@ def run(ctx):
     # (3) a session whose task is stuck behind its unread output, ended by KILL / close / reset, and the nickname's
     # next owner
     common.run_stuck(ctx, res)
+    # the ending that needs real time: five users with ranks, own channels, +w/+i/+o, away text and an invitation fall
+    # silent next to bystanders who answer; what is left after ping_timeout + pong_timeout is compared with "the same
+    # state without them" (how long it takes is C17's question)
+    common.run_idleout(ctx, res, sigs=("idle:ghost", "idle:roster", "idle:no-whowas", "idle:wallops-audience",
+                                       "idle:bystander-changed", "idle:invitation", "idle:nick-not-free", "idle:rank-inherited",
+                                       "idle:inv:", "idle:state:", "idle:conns", "idle:configured-channel-gone"))
     # a member's leaving in the middle of other members' traffic costs nobody else anything
     common.run_storm_kinds(ctx, res, "c06:", ["quitflood"], 3, 20)
-    res.rule = ("(stuck sessions) a client owed ~10 MB of replies stops reading, is KILLed / closes / resets; the nickname "
+    res.rule = ("(ping timeouts) five users holding ranks, own channels, +w/+i/operator status, away text and an invitation "
+                "fall silent (one in mid-line) next to three bystanders who answer every PING; after ping_timeout + pong_timeout "
+                "the snapshot must equal the earlier one minus those users (rank lists, WALLOPS audience, counters, empty "
+                "channels gone, the configured one kept, bystanders' away/voice/invitation intact), WHOWAS has each of them, "
+                "the nickname registers at once and inherits neither rank nor invitation. "
+                "(stuck sessions) a client owed ~10 MB of replies stops reading, is KILLed / closes / resets; the nickname "
                 "is claimed meanwhile and afterwards: the claimant stays registered, bystanders and channels are untouched, "
                 "the ended user's sole channel is gone, invariants hold. "
                 "(enumeration) seeded histories of registrations, joins, rank/mode changes, OPER, invitations, away are "
@@ -166,7 +177,7 @@ def run(ctx):
                 "last member?). (exploration) the same endings mixed into random E1 histories")
     res.floor("injections_done", done, 150)
     res.floor("ending_kinds", len(per_ending), 8)
-    res.assumptions = ["pong-timeout endings are exercised by C17 (needs clients that answer server PINGs)",
+    res.assumptions = ["pong-timeout endings: sircv/idleout.py (real time, 3-5 s timeouts); their timing is judged by C17",
                        "a mid-line close may or may not execute the unterminated line; it is chosen to be harmless"]
     return res
 
